@@ -1,7 +1,9 @@
 (* GOLDEN shape contracts of polliwog (C20): what every function / method of every non-test module checks
    directly, in program order, as reviewed against the documented single / stacked forms of each docstring.
-   Produced once with `python tools/props/C20.py golden` on the tree with the proposed fixes/C20-*.diff
-   applied, then reviewed by hand.  Every check re-extracts the contracts from the source and proves
+   Produced with `python tools/props/C20.py golden` on /repo after the fix commits 41f0cd6 (euler), e40d90b
+   (intersect_lines / intersect_2d_lines), 0ead1a8 (Plane point selection / line_segment_xsections), 647303a
+   (slice_triangles_by_plane mask length), 529236b (subdivide_segment(s)), 5ca020b (Polyline.aligned_along_subsegment,
+   with_segments_bisected; later 9cca2eb), then reviewed by hand.  Every check re-extracts the contracts from the source and proves
    `extracted = expected` (build/C20/Traced_contracts.v); a deleted or weakened check breaks that lemma.
    `delegation` says which callee performs the checks for callables that do none themselves (each row is
    validated by probing on every run); `documented_args` lists the array parameters each public callable
@@ -466,7 +468,7 @@ Definition documented_args : list (string * list string) := [
   ("polliwog.transform._rotation.euler", ["xyz"]);
   ("polliwog.transform._rotation.rotation_from_up_and_look", ["up"; "look"]);
   ("polliwog.transform._viewing.world_to_canvas_orthographic_projection", ["position"; "target"]);
-  ("polliwog.transform._viewing.world_to_view", ["position"; "target"; "up"]);
+  ("polliwog.transform._viewing.world_to_view", ["position"; "target"]);
   ("polliwog.tri.functions.barycentric_coordinates_of_points", ["vertices_of_tris"; "points"]);
   ("polliwog.tri.functions.edges_of_faces", ["faces"]);
   ("polliwog.tri.functions.sample", ["vertices_of_tris"; "weights"]);
@@ -482,7 +484,12 @@ Definition external_contracts : contracts := [
 ].
 
 (* callables whose acceptance logic is not a sequence of shape checks (judged by the oracle only) *)
-Definition not_modelled : list string := ["polliwog.transform._rodrigues.cv2_rodrigues"; "polliwog.transform._viewing.world_to_view"].
+Definition not_modelled : list string := ["polliwog.transform._rodrigues.cv2_rodrigues"].
+
+(* (callable, array parameter) pairs that are rejected by something else than a shape check (world_to_view's `up`:
+   by vg.cross / np.array); the callable is modelled with that parameter ignored, the tables below omit it, and
+   probes that pass it are judged by the oracle only *)
+Definition not_modelled_args : list (string * string) := [("polliwog.transform._viewing.world_to_view", "up")].
 
 (* the documented single / stacked forms of every registered array-taking callable (arguments in the order of
    documented_args; length symbols shared between arguments; minimum sizes are value checks and omitted) *)
@@ -688,8 +695,7 @@ Definition documented_forms : list (string * list form) := [
   ("polliwog.transform._viewing.world_to_canvas_orthographic_projection", [
      [("position", FArr [FInt 3]); ("target", FArr [FInt 3])]]);
   ("polliwog.transform._viewing.world_to_view", [
-     [("position", FArr [FInt 3]); ("target", FArr [FInt 3]); ("up", FNone)];
-     [("position", FArr [FInt 3]); ("target", FArr [FInt 3]); ("up", FArr [FInt 3])]]);
+     [("position", FArr [FInt 3]); ("target", FArr [FInt 3])]]);
   ("polliwog.tri.functions.barycentric_coordinates_of_points", [
      [("vertices_of_tris", FArr [FSym "k"; FInt 3; FInt 3]); ("points", FArr [FSym "k"; FInt 3])]]);
   ("polliwog.tri.functions.edges_of_faces", [
@@ -762,5 +768,10 @@ Definition delegating_row (name : string) : bool :=
   has_delegates name && forallb nf_ok (contract_of all_contracts name) &&
   forallb (fun d => forallb nf_ok (contract_of all_contracts (callee d))) (delegates_list name).
 Definition all_shapes_via_delegates : list string := filter delegating_row (map fst documented_forms).
+(* status of a delegate's callee: itself covered for all shapes, an external (vg) contract, or a pass-through delegator
+   with no checks of its own (its own delegates are listed as further rows of the caller) *)
+Definition callee_status_ok (d : delegate) : bool :=
+  mem (callee d) (map fst (filter all_shapes_row documented_forms)) || mem (callee d) (map fst external_contracts) ||
+  match contract_of all_contracts (callee d) with [] => true | _ => false end.
 Definition all_shapes_covered : list string := map fst (filter all_shapes_row documented_forms).
 Definition all_shapes_not_covered : list string := map fst (filter (fun nf => negb (all_shapes_row nf)) documented_forms).
